@@ -61,7 +61,10 @@ EmptyLeaves ==
                E(<<"Optional", <<"Pregex", <<>>>>, TRUE>>, Eps), E(<<"OneOrMore", Str(<<>>), TRUE>>, Eps),
                E(<<"Group", <<"Pregex", <<>>>>, FALSE>>, Eps), E(<<"Capture", Str(<<>>), <<"name", "n">>>>, Eps),
                E(<<"Concat", <<"args", Str(<<>>), <<"Pregex", <<>>>>>>>>, Eps),
-               E(<<"Look", "ahead", TRUE, Str(<<>>), <<"args", <<"Pregex", <<>>>>>>>>, Eps) }
+               E(<<"Look", "ahead", TRUE, Str(<<>>), <<"args", <<"Pregex", <<>>>>>>>>, Eps),
+               E(<<"Exactly", <<"Anchor", "bos", Str(<<c1>>)>>, <<"i", 0>>>>, Eps),
+               E(<<"AtMost", <<"Look", "ahead", TRUE, Str(<<c1>>), <<"args", Str(<<c2>>)>>>>, <<"i", 0>>, FALSE>>, Eps),
+               E(<<"Mul", <<"Anchor", "eol", Str(<<c1>>)>>, <<"i", 0>>>>, Eps) }
         ELSE {})
 ClassLeaves ==
   IF "minpool" \in PoolSel THEN { E(<<"AnyDigit">>, Cls(FALSE, << <<48, 57>> >>)) } ELSE
@@ -84,7 +87,8 @@ ParenLeaves ==   \* literals that look like group syntax
   IF "parens" \in PoolSel
   THEN { E(Str(<<40>>), Lit(<<40>>)), E(Str(<<41>>), Lit(<<41>>)), E(Str(<<40, 63, 58, c1, 41>>), Lit(<<40, 63, 58, c1, 41>>)),
          E(Str(<<40, 63, 80, 60, 120, 62, c1, 41>>), Lit(<<40, 63, 80, 60, 120, 62, c1, 41>>)),
-         E(Str(<<40, c1, 41, 40, c1, 41>>), Lit(<<40, c1, 41, 40, c1, 41>>)) }
+         E(Str(<<40, c1, 41, 40, c1, 41>>), Lit(<<40, c1, 41, 40, c1, 41>>)),
+         E(Str(<<58, c1>>), Lit(<<58, c1>>)), E(Str(<<58>>), Lit(<<58>>)), E(Str(<<63, c1>>), Lit(<<63, c1>>)) }
   ELSE {}
 LookLeaves ==    \* lookarounds on the empty pattern and on a literal, conditionals, back-references
   IF "looks" \in PoolSel
